@@ -45,6 +45,17 @@ def cardanoOps : List (String × Op) := [
       let r : R Node := do deriveSplit kholawChildKey (← m) elems k
       pure (reply r outNode)
     | _ => none),
+  ("kholawraw", fun a => match a with          -- kholawraw priv(64) chaincode elems k: a hand-supplied BIP32-Ed25519 parent (FromPrivateKey)
+    | [priv, cc, elems, k] => do
+      let priv ← argBytes priv
+      let cc ← argBytes cc
+      let elems ← argNats elems
+      let k ← argNat k
+      let r : R Node := do
+        let n ← nodeOfPriv .ed25519Kholaw .kholaw priv 0 0 cc [0, 0, 0, 0]
+        deriveSplit kholawChildKey n elems k
+      pure (reply r outNode)
+    | _ => none),
   ("byronaddr", fun a => match a with          -- byronaddr seed first second → address, recovered path
     | [seed, f, s] => do
       let seed ← argBytes seed
@@ -56,6 +67,11 @@ def cardanoOps : List (String × Op) := [
         let back ← byronRecoverPath m addr
         pure s!"{outText addr} {outNats back} {outBytes (byronHdPathKey m)}"
       pure (reply r id)
+    | _ => none),
+  ("byrondec", fun a => match a with           -- byrondec address → root hash ‖ encrypted path (AdaByronAddrDecoder.DecodeAddr)
+    | [addr] => do
+      let addr ← argText addr
+      pure (reply (byronDecode addr) outBytes)
     | _ => none),
   ("byronrecover", fun a => match a with       -- byronrecover seed address
     | [seed, addr] => do
